@@ -14,7 +14,15 @@ GO_TIMEOUT = 1200
 
 def generate(rng, tier, stats):
     n = 200 if tier == "quick" else 2000
-    return [worldgen.gen_ers_world(rng, stats) for _ in range(n)]
+    import os
+    which = os.environ.get("WORLD_KIND", "both")
+    out = []
+    for i in range(n):
+        if which == "ers" or (which == "both" and i % 2 == 0):
+            out.append(worldgen.gen_ers_world(rng, stats))
+        else:
+            out.append(worldgen.gen_eds_world(rng, stats))
+    return out
 
 
 def encode(c, r):
